@@ -69,6 +69,11 @@ pub fn gen(tier: Tier, rng: &mut Rng) -> Vec<Sx> {
         let fa = Sx::l(vec![Sx::l(vec![Sx::n(1), enc_v(a)])]); let fb = Sx::l(vec![Sx::l(vec![Sx::n(1), enc_v(b)])]);
         v.push(Sx::l(vec![Sx::n(2), Sx::l(vec![Sx::l(vec![Sx::n(1), enc_v(a), fa.clone()]), Sx::l(vec![Sx::n(1), enc_v(a), fb.clone()]),
                                                   Sx::l(vec![Sx::n(1), enc_v(b), fa.clone()]), Sx::l(vec![Sx::n(1), enc_v(b), fb.clone()])])]));
+        // memo: the same two values spread over two fields the other way round (a key that forgets which value belongs to which field collides)
+        let fab = Sx::l(vec![Sx::l(vec![Sx::n(1), enc_v(a)]), Sx::l(vec![Sx::n(2), enc_v(b)])]);
+        let fba = Sx::l(vec![Sx::l(vec![Sx::n(1), enc_v(b)]), Sx::l(vec![Sx::n(2), enc_v(a)])]);
+        v.push(Sx::l(vec![Sx::n(2), Sx::l(vec![Sx::l(vec![Sx::n(1), enc_v(a), fab.clone()]), Sx::l(vec![Sx::n(1), enc_v(a), fba.clone()]),
+                                                  Sx::l(vec![Sx::n(2), enc_v(a), fab.clone()]), Sx::l(vec![Sx::n(2), enc_v(a), fba.clone()])])]));
     } }
     let n = if tier == Tier::Thorough { 120000 } else { 6000 };
     for _ in 0..n {
